@@ -85,3 +85,13 @@ Print Assumptions C20_reported_monotone.
 Print Assumptions C20_reported_complete.
 Print Assumptions C20_finish_protocol.
 Print Assumptions C20_finish_old_refuted.
+
+(* finish() IS THE SOURCE'S.  translate/gen_progress.py re-reads ProgressHandler::finish (progress.cpp) on every run - the guard
+   `future.valid()`, `done = true`, `timed_mut.unlock()`, `future.get()`, each translated into its effect on the handler
+   state; the constructor must only lock timed_mut and the destructor only call finish() - and the result is the repaired
+   [h_finish true] of the model that the finish-protocol theorems above are about (with `future.wait()`, the code before the
+   repair, it is [h_finish false], whose second call is undefined behaviour) *)
+From LF Require Gen.ProgressFinish_gen Render.ProgressAgree.
+Theorem C20_finish_from_source : forall s, ProgressFinish_gen.finish_gen s = h_finish true s.
+Proof. exact ProgressAgree.finish_gen_eq. Qed.
+Print Assumptions C20_finish_from_source.
